@@ -100,6 +100,7 @@ def run(ck: Checker) -> None:
     # base properties in the name order is irrelevant to it
     ck.guard("R-ORDER-KEY", lambda: T.r_order_key(ck, gens=("_gen_get_properties_func", "_gen_get_child_nodes_with_field_func"), base_props=False))
     ck.guard("R-ORDER-KEY", lambda: T.r_gen_stateless(ck))
+    ck.guard("R-ENUM-SHAPE", lambda: T.r_enum_shape(ck))  # every position of a child sequence contributes (the same object twice is two positions)
     ck.guard("R-FLAGS-TT", lambda: T.r_flags_tt(ck))
     ck.guard("R-TYPES-CACHE", lambda: T.r_types_cache(ck))
     ck.guard("R-REINSTALL", lambda: T.r_reinstall(ck))  # every class hashes its own fields (no accessor inherited from a base class)  # the digest is computed from the per-class field tables
